@@ -303,7 +303,9 @@ class World:
         for h in HANDLERS:
             mh, _ = self.events[h]
             for sid, one_shot in subs.get(h, []):
-                fn = self._make_sub(h, sid)
+                # the same sid listed twice = the SAME handler object subscribed twice (Event keys registrations by
+                # (handler, args, kwargs): unsubscribe removes all of them, a second unsubscribe raises ValueError)
+                fn = self.handlers_by_sid[(h, sid)][0] if (h, sid) in self.handlers_by_sid else self._make_sub(h, sid)
                 pred = self._make_pred(sid)
                 self.handlers_by_sid[(h, sid)] = (fn, bool(one_shot))
                 if h[1] == "w":
@@ -326,7 +328,7 @@ class World:
                 rev = {id(fn): (sid, os_) for (hh, sid), (fn, os_) in self.handlers_by_sid.items() if hh == h}
                 for tup in ev.subscribers:
                     if id(tup[0]) in rev:
-                        cur.append(rev[id(tup[0])])
+                        cur.append((rev[id(tup[0])][0], bool(tup[3])))
             out.append(enc_subs(cur))
         return "/".join(out)
 
@@ -722,6 +724,11 @@ def check_trace(m, toks):
     if not claimed_pkt and "E" in toks and n_log != 1:
         out.append(("message logger runs even though an addon/subscriber misbehaved",
                     "command-channel-drop-unguarded" if m["kind"] == "C" else "logger-skipped"))
+    if ("Xms" in toks or "Xmr" in toks) and not any(pb[0] == "x" for pb in m.get("sub", {}).values()):
+        # MessageHandler.handle raised although no subscriber predicate raises (handler bodies are inside Event.notify's
+        # try/except): the event machinery itself aborted the notification, so the remaining subscribers were skipped
+        out.append(("one subscriber's behaviour (return value, registrations) never stops the other subscribers from being notified",
+                    "notify-aborted"))
     if msg_unclaimed(m) and n_orig != 1:
         cls = "rlv-empty-command-list-swallowed" if (m["kind"] == "R" and m.get("ncmd", 0) == 0) else "unclaimed-message-lost"
         out.append(("exactly once unless an addon or the command channel claimed it", cls))
@@ -821,6 +828,14 @@ def gen_exhaustive(ctx):
                 yield "exh-subs", {"subs": {hname: [[1, 0], [2, 1]]},
                                    "msgs": [mk_msg(SHAPES[1], sub={"1": [p, a], "2": ["t", b]}),
                                             mk_msg(SHAPES[0], sub={"1": ["t", "M0"], "2": ["t", "M0"]})]}
+    # F2: the same handler subscribed twice (also once one-shot, also around another subscriber): a truthy return unsubscribes
+    #     every registration, the second registration's own unsubscribe then fails inside Event.notify and must stay there
+    for hname in (("sn", "rw") if not th else HANDLERS):
+        for lst in ([[1, 0], [1, 0]], [[1, 0], [2, 0], [1, 0]], [[1, 0], [1, 1]], [[1, 1], [1, 0], [2, 0]], [[1, 1], [1, 1]]):
+            for a, b in itertools.product(B7, ("0", "1", "T0", "x")):
+                yield "exh-dupsub", {"subs": {hname: lst},
+                                     "msgs": [mk_msg(SHAPES[1], sub={"1": ["t", a], "2": ["t", b]}),
+                                              mk_msg(SHAPES[0], sub={"1": ["t", "M0"], "2": ["t", "M0"]})]}
     # G: every sequence of ownership operations by one addon (errors caught so the sequence goes on),
     #    from a fresh message and from a message a subscriber already took
     L = ctx.pick(3, 5)
@@ -849,6 +864,8 @@ def rand_case(rng, big=False):
         for _ in range(rng.choice((0, 0, 1, 2))):
             lst.append([sid, rng.choice((0, 0, 1))])
             sid += 1
+        if lst and rng.random() < 0.12:
+            lst.insert(rng.randrange(len(lst) + 1), [rng.choice(lst)[0], rng.choice((0, 0, 1))])   # same handler twice
         if lst:
             subs[h] = lst
     msgs = []
